@@ -438,3 +438,16 @@ def norm_report(r, with_pos=True):
         return (os.path.basename(l["file"]), l["start"], l["end"], l["label"]) if with_pos else (os.path.basename(l["file"]), l["label"])
     return (r["id"], r["level"], r["message"], tuple(sorted(lab(l) for l in r["primary"])),
             tuple(sorted(lab(l) for l in r["secondary"])), tuple(r["notes"]))
+
+
+_SAFE = re.compile(r"^[A-Za-z0-9_$.\-+*/<>=!&|^~%:,\[\]{}#@?']+$")
+
+
+def sexp(v):
+    """uniform JSON tree (arrays of arrays/strings) -> one-line S-expression for the Lean driver"""
+    if isinstance(v, list):
+        return "(" + " ".join(sexp(x) for x in v) + ")"
+    t = str(v)
+    if _SAFE.match(t):
+        return t
+    return "x" + t.encode("utf-8").hex()
